@@ -11,6 +11,9 @@ CHECKS = {
  "C02": dict(cat="model_checking", tech="stateless preemption-bounded schedule exploration of the real code under a replacement OpenMP runtime (vgomp) + free-running ThreadSanitizer pass",
    text="kalign's objects are linked against a replacement for libgomp that owns every scheduling decision; for inputs reaching every parallel region (distance loop, k-means restarts and recursion, tree-parallel merges, nested forward/backward tasks) all schedules within a preemption (small harnesses) or departure (>=100 sequences) bound are executed on the real code, for 2-4 threads with nested teams off/on; every execution is compared byte-for-byte with the OpenMP-free build and checked by an ordering monitor over hook events; the canonical schedule is run for every thread count 1..64; a separate free-running ThreadSanitizer pass checks the same harness bodies for unordered conflicting accesses.",
    note="Granularity = runtime calls + hook events; bounds per job are in the evidence; vgomp over-approximates tied-task placement (sound for n_threads up to the number of tasks); the scheduler itself is self-tested on toy programs with known schedule dependence on every run.", ref="2.2, 3/C02"),
+ "C09": dict(cat="model_checking", tech="complete enumeration of the finite configuration table on the real code (aln_param_init, kalign_run via hook, CLI main in-process), differential oracle",
+   text="The configuration space of C09 is finite and is enumerated completely: 2 kinds x 6 type constants x 8 override subsets x 3 values through aln_param_init and, observed through the PARAMS hook, through kalign_run; every documented --type word x kind x subset through the CLI's own main(); explicit-default == implicit-default on all pairs over 3 letters up to length 3; README numbers. The oracle is differential (an override changes exactly the named field relative to the same build's no-override result).",
+   note="Golden values only for what README.md states; the hook exposes the aln_param actually used.", ref="3/C09"),
 }
 
 NA_REASON = "check not built yet (work in progress; see DESIGN.md section 3)"
